@@ -55,14 +55,14 @@ def cases():
         out.append({"k": "binary", "fn": "B", "col": col, "s": None})
         out.append({"k": "binary-absent", "col": col, "s": "zz" if isinstance(vals[0], str) else 999})
         out.append({"k": "binary-ns", "col": col, "s": vals[-1]})
-    for e, kind in (("z", "col"), ("3", "const"), ("2.5", "const"), ("np.log(z)", "expr"), ("z * 2 + 1", "expr"), ("-z", "expr"), ("z / x", "expr"), ("k", "col")):
+    for e, kind in (("z", "col"), ("3", "const"), ("2.5", "const"), ("np.log(z)", "expr"), ("z * 2 + 1", "expr"), ("-z", "expr"), ("z / x", "expr"), ("k", "col"), ("1 / z", "expr"), ("10 - z", "expr"), ("2 ** x", "expr")):
         out.append({"k": "offset", "e": e, "kind": kind})
     for fn in ("prop", "p", "proportion"):
         for tr in ("n", "9", "n + 1", "trials=n", "trials=9", "n * 2"):
             out.append({"k": "prop", "fn": fn, "tr": tr})
     for succ, tr in (("xf", "n"), ("n", "s"), ("s", "9.5"), ("s", "3"), ("s", "z"), ("3", "n"), ("s", "'9'")):
         out.append({"k": "prop-invalid", "succ": succ, "tr": tr})
-    for e in ("x + z", "x * 2 - z / 4", "x ** 2", "(x + 1) * (z - 1)", "np.sqrt(x) + 1"):
+    for e in ("x + z", "x * 2 - z / 4", "x ** 2", "(x + 1) * (z - 1)", "np.sqrt(x) + 1", "10 - x", "1 / x", "2 ** z", "0.5 - z / 2", "3 < z", "1 - (2 - x)"):
         out.append({"k": "identity", "e": e})
     pairs = [("B(f, 'b')", "binary(f, 'b')"), ("B(k)", "binary(k)"), ("standardize(x)", "scale(x)"), ("standardize(np.log(x))", "scale(np.log(x))"),
              ("T(f, 'c')", "C(f, Treatment('c'))"), ("T(f)", "C(f, Treatment)"), ("T(f)", "C(f)"), ("T(k, 20)", "C(k, Treatment(20))"), ("S(f, 'a')", "C(f, Sum('a'))"),
